@@ -8,8 +8,11 @@ appending a pass, wrapping passes differently, or pruning FEWER opcodes does not
 break these theorems.
 -/
 import AvoVerif.Props.C10
+import AvoVerif.Props.C10Moves
 import AvoVerif.Gen.PassFacts
 import AvoVerif.Gen.BranchOps
+import AvoVerif.Gen.SelfMoveFacts
+import AvoVerif.Oracle.MoveHW
 namespace Avo.Cleanup
 
 def hasSub (pat : List Char) : List Char → Bool
@@ -47,14 +50,94 @@ theorem compile_order :
   decide +kernel
 
 /-- Of the two-operand general-purpose-register opcodes, `PruneSelfMoves` deletes
-`OPC r, r` at most for `MOVB`, `MOVW`, `MOVQ` — the opcodes whose self-move the
-model's `execMov` proves to be the identity — in particular not for `MOVL`
-(a 32-bit self-move clears the upper half). -/
+`OPC r, r` only for opcodes whose self-move is the identity at some operand width
+(`isNoopKind`, exact by `selfMove_noop_iff`): today `MOVB`, `MOVW`, `MOVQ`; `MOVD`
+(the assembler's alias of `MOVQ`) would be fine too — but never `MOVL` (a 32-bit
+self-move clears the upper half) nor anything that is not a move.  (Kept for the
+general-purpose view of `Gen/PassFacts`; `pruned_moves_are_noops` below says the
+same per instruction, for every register class.) -/
 theorem selfmove_opcodes :
-    Avo.Gen.selfMoveOpcodes.all (fun o => o == "MOVB" || o == "MOVW" || o == "MOVQ") = true := by
+    Avo.Gen.selfMoveOpcodes.all (fun o =>
+      [Avo.Reg.S8L, Avo.Reg.S16, Avo.Reg.S32, Avo.Reg.S64].any (fun m => isNoopKind (movKind o ⟨65792, m⟩ ⟨65792, m⟩))) = true := by
+  decide +kernel
+
+/-- … and `MOVL` fails that test. -/
+example : [Avo.Reg.S8L, Avo.Reg.S16, Avo.Reg.S32, Avo.Reg.S64].any (fun m => isNoopKind (movKind "MOVL" ⟨65792, m⟩ ⟨65792, m⟩)) = false := by
   decide +kernel
 
 example : passIdx "PruneSelfMoves" ≠ [] := by decide +kernel
+
+/-! ## What the real `PruneSelfMoves` deletes, over EVERY register-to-register shape of the form table
+
+`Gen.selfMovePruned` is measured on every run (harness/c10facts.go): every opcode of
+the compiled form table that has a form `OPC t, t` (t = r8 r16 r32 r64 xmm ymm zmm k)
+or a masked form `OPC t, k, t`, with every suffix, instantiated as a self-move on
+several registers of the class (and, for moves, between two different registers), is
+run through the real pass; listed are the instructions that were deleted. -/
+
+def measuredInstr (row : String × List (Nat × Nat)) : XInstr :=
+  ⟨0, default, row.1, row.2.map (fun p => MOp.reg ⟨p.1, p.2⟩)⟩
+
+/-- **Every instruction the real pass deletes — whatever the opcode, register class
+and width — is a register move without architectural effect** (`isNoopMove`, exact by
+`noEffectMove_iff`: the move's semantics is the identity on every register file).
+The theorem does not mention the opcodes pruned today: pruning FEWER or MORE true
+no-ops (`MOVAPS x,x`, `VMOVDQU64 z,z`, `KMOVQ k,k`) keeps it true, pruning a move that
+clears part of the register (`MOVL r,r`, `MOVQ x,x`, `VMOVDQU y,y`, `KMOVW k,k`, a
+zeroing-masked move) or a move between different registers makes it false. -/
+theorem pruned_moves_are_noops :
+    Avo.Gen.selfMovePruned.all (fun row => isNoopMove (measuredInstr row)) = true := by
+  decide +kernel
+
+theorem pruned_moves_no_effect (row : String × List (Nat × Nat)) (h : row ∈ Avo.Gen.selfMovePruned) :
+    NoEffectMove (measuredInstr row) :=
+  isNoopMove_spec _ ((List.all_eq_true.mp pruned_moves_are_noops) row h)
+
+/-- Non-vacuity: the sweep ran (more than a thousand instructions) and the pass deleted some of them. -/
+theorem selfmove_sweep_ran : 1000 ≤ Avo.Gen.selfMoveTried ∧ Avo.Gen.selfMovePruned ≠ [] := by decide +kernel
+
+/-! ## The move semantics against the host CPU
+
+`Oracle.moveHW` is measured on every run (harness/c10facts.go): every MOV-named shape
+is assembled by the Go assembler as a self-move, executed on a register filled with
+non-zero bytes, and the byte lanes of the FULL register that changed are recorded. -/
+
+/-- Lanes (bit l = lane l) in which the model changes the all-ones register file. -/
+def changedLanes (id : Nat) (σ' : RegFile) : Nat :=
+  (List.range 7).foldl (fun acc l => if σ' id l = 1 then acc else acc + 2 ^ l) 0
+
+/-- Wherever the model gives the measured self-move a meaning, it predicts the measured lanes:
+two-operand moves lane by lane; masked moves (whose elements are finer than lanes) as
+"changes nothing" ⇔ `isNoopMasked`. -/
+def cpuAgrees (row : String × List (Nat × Nat) × Nat) : Bool :=
+  match row.2.1 with
+  | [a, b] =>
+    a != b ||
+    (match execMov row.1 ⟨a.1, a.2⟩ ⟨a.1, a.2⟩ ones with
+     | none => true
+     | some σ' => changedLanes a.1 σ' == row.2.2)
+  | [a, k, b] =>
+    a != b ||
+    (match maskedKind row.1 ⟨a.1, a.2⟩ ⟨k.1, k.2⟩ ⟨a.1, a.2⟩ with
+     | none => true
+     | some _ => (row.2.2 == 0) == isNoopMasked row.1 ⟨a.1, a.2⟩ ⟨k.1, k.2⟩ ⟨a.1, a.2⟩)
+  | _ => true
+
+/-- Does the model give the row a meaning? -/
+def cpuModelled (row : String × List (Nat × Nat) × Nat) : Bool :=
+  match row.2.1 with
+  | [a, b] => a == b && (execMov row.1 ⟨a.1, a.2⟩ ⟨a.1, a.2⟩ ones).isSome
+  | [a, k, b] => a == b && (maskedKind row.1 ⟨a.1, a.2⟩ ⟨k.1, k.2⟩ ⟨a.1, a.2⟩).isSome
+  | _ => false
+
+/-- **The hand-written move semantics agrees with the CPU** on every measured self-move
+it covers (GP 8/16/32/64 incl. `CH`, legacy SSE, VEX/EVEX at 128/256/512, `VMOVQ`,
+`MOVD/MOVQ x,x`, `KMOVx`, merge- and zeroing-masked EVEX moves). -/
+theorem movesem_matches_cpu : Avo.Oracle.moveHW.all cpuAgrees = true := by decide +kernel
+
+/-- … and that is not vacuous: on a host with AVX-512 at least 100 measured rows are covered by the model. -/
+theorem movesem_cpu_rows :
+    Avo.Oracle.moveHWAvx512 = false ∨ 100 ≤ (Avo.Oracle.moveHW.filter cpuModelled).length := by decide +kernel
 
 /-! ## `hcf` from the form table: a self-move is neither a branch nor a return -/
 
